@@ -684,6 +684,14 @@ func (e *SpecEnv) call(x *ast.CallExpr) Term {
 			k.T = mt.Key()
 			_, present := u.mapLookupSpec(e.curState(), m, k, mt)
 			return Term{S: present, T: types.Typ[types.Bool]}
+		case "chancap":
+			// the buffer capacity a channel was made with
+			a := e.eval(x.Args[0])
+			if _, ok := a.T.Underlying().(*types.Chan); !ok {
+				return e.fail("chancap needs a channel")
+			}
+			u.c.declareFun("chan.cap", "(Int) "+u.c.idxSort())
+			return Term{S: "(chan.cap " + a.S + ")", T: types.Typ[types.Int]}
 		case "chanlen", "chanat":
 			// ghost sequence of the values received from a channel (see execRangeChan)
 			a := e.eval(x.Args[0])
